@@ -29,10 +29,11 @@ def step_check(proj, i, obs):
         out.append(e1prop.stat("runs-needing-always-target" if a_needed else "runs-not-needing-always-target"))
     if w.startswith("ifcreate"):
         mb = obs["model_before"]
-        rb = mb.seen.get("t", {}).get("f")
+        watched = "u/x" if w == "ifcreate-under-file" else "f"
+        rb = mb.seen.get("t", {}).get(watched)
         if rb and rb[0] == "c":
-            out.append(e1prop.stat("builds-with-recorded-ifcreate:" + ("path-now-exists" if m.exists("f") else "path-still-absent")))
-        if w.startswith("ifcreate-raw") and m.exists("f") and "t" in ran:
+            out.append(e1prop.stat("builds-with-recorded-ifcreate:" + ("path-now-exists" if m.exists(watched) else "path-still-absent")))
+        if (w.startswith("ifcreate-raw") or w == "ifcreate-under-file") and m.exists(watched) and "t" in ran:
             out.append(e1prop.stat("ifcreate-on-existing-path-attempts"))
             if obs["rc"] == 0:
                 out.append(({"kind": "ifcreate-accepted-existing-path", "world": w}, {"ran": ran}))
@@ -43,6 +44,20 @@ def alphabet_ifc(world, h):
     return e1prop.std_alphabet(world, h, redo_targets=[], touch=False, rm_targets=False, dovar=False, rm_sources=["f"])
 
 
+def alphabet_under(world, h):
+    """ifcreate-under-file: u/x can be created only while u is a directory, and u can become a file again only once
+    u/x is gone (what a user can do at all)."""
+    cur = e1prop.cur_values(world, h)
+    ops = []
+    for op in e1prop.std_alphabet(world, h, redo_targets=[], touch=False, rm_targets=False, dovar=False, rm_sources=["u/x"]):
+        if op[0] == "edit" and op[1] == "u/x" and cur["u"] != "<dir>":
+            continue
+        if op[0] == "edit" and op[1] == "u" and cur["u/x"] is not None:
+            continue
+        ops.append(op)
+    return ops
+
+
 def alphabet_alw(world, h):
     return e1prop.std_alphabet(world, h, redo_targets=["d1"], touch=False, rm_targets=False, dovar=False)
 
@@ -51,7 +66,7 @@ def plan(tier):
     W = worlds.curated()
     q = tier == "quick"
     return [(W["ifcreate"], alphabet_ifc, 4 if q else 6), (W["ifcreate-raw"], alphabet_ifc, 4 if q else 6),
-            (W["ifcreate-link"], alphabet_ifc, 4 if q else 6), (W["ifcreate-raw-dots"], alphabet_ifc, 3 if q else 5),
+            (W["ifcreate-link"], alphabet_ifc, 4 if q else 6), (W["ifcreate-raw-dots"], alphabet_ifc, 3 if q else 5), (W["ifcreate-under-file"], alphabet_under, 4 if q else 6),
             (W["always"], alphabet_alw, 3 if q else 5), (W["always3"], alphabet_alw, 3 if q else 5)]
 
 
